@@ -311,6 +311,36 @@ def check_ans_exhaustion_sees_head(ctx, F):
             ctx.ok('R4', role, b.defpath, 'the answer is the emptiness test of the head', key=key)
 
 
+def check_decode_overrides_exhaustion(ctx, F):
+    """`Decode::maybe_exhausted` has a provided default that answers `true` always (allowed for decoders that cannot know).  The
+    library's own decoders can know, and generic code (`Code::decoder_maybe_exhausted`, anything written against `Decode`) reaches
+    their answer only through the trait method: each `impl Decode` of a crate-local coder overrides it, and where the type has
+    an inherent method of the same name the override is that method."""
+    adts = sorted({b.self_adt for b in F.bodies if b.promoted is None and (b.impl_trait or '') == 'stream::Decode' and b.name == 'decode_symbol'
+                   and (b.self_adt or '').startswith('stream::') and '::tests::' not in b.defpath})
+    for adt in adts:
+        key = 'R4/decode-overrides-exhaustion/' + adt
+        role = 'the Decode impl answers maybe_exhausted() itself (not through the always-true default)'
+        ov = [b for b in F.bodies if b.promoted is None and b.name == 'maybe_exhausted' and b.self_adt == adt and (b.impl_trait or '') == 'stream::Decode']
+        inh = [b for b in F.bodies if b.promoted is None and b.name == 'maybe_exhausted' and b.self_adt == adt and b.impl_trait is None]
+        if not ov:
+            ctx.bad('R4', role, adt, 'the `impl Decode` has no maybe_exhausted(): generic code gets the trait default, which answers `true` even when whole words are left%s' % (
+                ' (the inherent method of the same name is exact, but a `D: Decode` bound never reaches it)' if inh else ''), key=key)
+            continue
+        b = ov[0]
+        ctx.touch(b)
+        _, paths = rules.evaluate(b)
+        rets = [r.ret for r in paths or [] if r.end == 'return' and r.ret is not None]
+        if rets and all(sym.is_int(t) or (isinstance(t, tuple) and t and t[0] == 'bool') for t in rets) and all((t[1] if len(t) > 1 else None) for t in rets):
+            ctx.bad('R4', role, b.defpath, 'the override answers the constant `true`', key=key, loc=rules.loc(b))
+        elif inh and not any(e['kind'] == 'call' and e['callee'] == inh[0].defpath for r in paths or [] for e in r.events):
+            ctx.unresolved('R4', role, b.defpath, 'the override does not forward to the inherent method of the same name', key=key)
+        else:
+            ctx.ok('R4', role, b.defpath, 'overridden%s' % (' and forwards to the inherent method' if inh else ''), key=key)
+    if len(adts) < 3:
+        ctx.bad('R4', 'floor: Decode impls of the stream coders', 'stream', 'only %d found (AnsCoder, RangeDecoder, ChainCoder expected)' % len(adts), key='R4/floor/decode-impls')
+
+
 class _NoModel(Exception):
     pass
 
@@ -804,6 +834,7 @@ def run(ctx):
     c08.check_encoder_guard(ctx, F)      # seal() writes num_seal_words() words; frame of seal (shared with C08)
     check_sentinels(ctx, F)
     check_ans_exhaustion_sees_head(ctx, F)
+    check_decode_overrides_exhaustion(ctx, F)
     check_bit_coder_sentinel(ctx, F)
     check_exhaustion_tolerance(ctx, F)
     check_valid_bits(ctx, F)
